@@ -68,7 +68,7 @@ func c06States(k, base int, thorough bool) []*nState {
 			for j, x := range cur {
 				caps[j], uses[j] = x.c, x.u
 			}
-			for _, mu := range []int64{0, 80} {
+			for _, mu := range []int64{0, 40, 80} {
 				out = append(out, &nState{Cap: caps, Use: uses, MemCap: 100, MemUse: mu})
 				if k >= 2 {
 					numa := make([]string, k)
@@ -109,7 +109,7 @@ func c06Cases(thorough bool) []c06Case {
 	for _, base := range bases {
 		var reqs []wReq
 		for _, cpu := range []float64{0.001, 0.004, 0.05, 0.3, 0.5, 1, 1.2, 2} {
-			for _, mem := range []int64{0, 30} {
+			for _, mem := range []int64{0, 20, 30} {
 				reqs = append(reqs, wReq{Bind: true, CPU: cpu, Mem: mem})
 			}
 		}
@@ -141,7 +141,7 @@ type c06Event struct {
 }
 
 func c06Parent(c *vcore.Ctx) {
-	c.SetRule("every node state (k cores; per-core capacity {1,.5,2,.3} x share base; usage {0,.3,.5,1} of capacity; memory use {0,80}; optional NUMA split) x bound request {.001,.004,.05,.3,.5,1,1.2,2} x memory {0,30} x share base {100,10,3,1} x max-share {-1,1,2,3,8}; " +
+	c.SetRule("every node state (k cores; per-core capacity {1,.5,2,.3} x share base; usage {0,.3,.5,1} of capacity; memory use {0,40,80}; optional NUMA split with NUMA memory use {0/0, 30/30}, so that total free memory is below, equal to or above the sum of the NUMA nodes' free memory) x bound request {.001,.004,.05,.3,.5,1,1.2,2} x memory {0,20,30} x share base {100,10,3,1} x max-share {-1,1,2,3,8}; " +
 		"calls GetNodesDeployCapacity, CalculateDeploy(1) and CalculateRealloc(keep-bind, affinity); non-trivial = the plugin accepted the state and reported capacity >= 1; distinct by case")
 	if os.Getenv("VERIF_C06_CHILD") != "" {
 		return // unreachable: the child is dispatched in worker_test via c06Child
